@@ -22,6 +22,7 @@ class PathSummary:
     args: dict            # name -> executor-level value at entry
     outcome: tuple        # ('return', value) | ('raise', exc) | ('cut', why)
     extractors: dict
+    ctx: Any = None
 
 
 @dataclass
@@ -158,7 +159,7 @@ class Explorer:
         for ob in ctx.obligations:
             ob.path = pid
         rep.obligations.extend(ctx.obligations)
-        rep.summaries.append(PathSummary(label, pid, ctx.hyps(), old, outcome, dict(ctx.extractors)))
+        rep.summaries.append(PathSummary(label, pid, ctx.hyps(), old, outcome, dict(ctx.extractors), ctx))
 
 
 def discharge_all(rep: FunctionReport, timeout_ms=10000) -> None:
